@@ -719,6 +719,93 @@ func vfC17Hostile(res *vfResult, c vfC17Case) {
 	synctest.Wait()
 }
 
+// vfC17PersistentLoss: a multi-datagram flight of the peer keeps losing the same fragment, so every retransmission
+// of it brings the target only copies of fragments it already holds: retransmitted data, nothing new. The target's
+// own timer retransmissions must keep backing off: the gaps between them never shrink.
+func vfC17PersistentLoss(res *vfResult, c vfC17Case) {
+	n := vfNewNet()
+	n.stormCap = 0
+	co, so := vfC17Opts(c)
+	p, err := vfNewPair(n, co, so)
+	if err != nil {
+		res.Count("config_rejected", 1)
+
+		return
+	}
+	target, peer := vfSideOf(p, c.Target)
+	var mu sync.Mutex
+	victim := "" // description of the fragment that never arrives
+	multi := 0
+	deliveredAt := map[time.Duration]bool{}
+	n.SetOnSend(func(n *vfNet, w *vfWire) {
+		if w.From != peer.Name {
+			n.Deliver(w.Dst, w.Data, vfAddrOf(w.From))
+
+			return
+		}
+		d := vfDescribe(w.Data, 0)
+		mu.Lock()
+		// the c.Cut-th datagram of the peer that carries a non-initial fragment of a fragmented message
+		if victim == "" && strings.Contains(d, "[ms") && !strings.Contains(d, ",0+") {
+			multi++
+			if multi == c.Cut {
+				victim = d
+			}
+		}
+		drop := victim != "" && d == victim
+		if !drop {
+			deliveredAt[n.Now()] = true
+		}
+		mu.Unlock()
+		if !drop {
+			n.Deliver(w.Dst, w.Data, vfAddrOf(w.From))
+		}
+	})
+	done := make(chan struct{})
+	go func() { p.HandshakeTimed(300 * c.Interval); close(done) }()
+	res.Eval(1)
+	<-done
+	synctest.Wait()
+	mu.Lock()
+	v := victim
+	mu.Unlock()
+	if v == "" {
+		res.Count("persistent_loss_not_applicable", 1)
+		p.Close()
+		synctest.Wait()
+
+		return
+	}
+	var timer []time.Duration
+	mu.Lock()
+	for _, b := range vfBursts(n.Emissions(target.Name)) {
+		if !deliveredAt[b.At] { // not an answer to something that just arrived: the target's own timer
+			timer = append(timer, b.At)
+		}
+	}
+	mu.Unlock()
+	res.NonTrivial("persistent-loss/" + c.String())
+	res.Count("persistent_loss_observed", 1)
+	bad := ""
+	for i := 2; i < len(timer); i++ {
+		if g, pg := timer[i]-timer[i-1], timer[i-1]-timer[i-2]; g < pg {
+			bad = fmt.Sprintf("gap before the timer retransmission at %v is %v, the one before it was %v", timer[i], g, pg)
+
+			break
+		}
+	}
+	if len(timer) < 4 {
+		res.Count("persistent_loss_too_few_retransmissions", 1)
+	}
+	if bad != "" {
+		res.Violate(fmt.Sprintf("C17:retransmitted-data-restored-the-interval:persistent-fragment-loss:%s:%s", vfVerClass(c.V), c.Target),
+			fmt.Sprintf("%s: the peer's flight kept arriving without %s, i.e. only copies of fragments already held, yet the back-off was undone: %s; timer retransmissions at %v",
+				c.String(), v, bad, timer), map[string]any{"case": c.String()})
+	}
+	p.Close()
+	synctest.Wait()
+}
+
 // vfC17Closed: two genuine endpoints, finite fault mask, then a reliable network: the exchange must
 // quiesce; the simnet's emission cap turns a self-sustaining exchange into an observable event.
 func vfC17Closed(res *vfResult, idx int) {
@@ -925,6 +1012,11 @@ func TestVF_C17(t *testing.T) {
 					}
 				}
 			}
+			if v.Cfg.MTU > 0 && !v.Cfg.Is13() {
+				for cut := 1; cut <= 3; cut++ {
+					cases = append(cases, vfC17Case{V: v, Target: tgt, Cut: cut, Interval: 100 * time.Millisecond, Backoff: true, Mode: "persistent-loss"})
+				}
+			}
 			cases = append(cases, vfC17Case{V: v, Target: tgt, Interval: time.Second, Backoff: true, Mode: "hostile"})
 			if v.Cfg.Is13() || v.Cfg.SVer == "dual" || v.Cfg.SVer == "13" {
 				cases = append(cases, vfC17Case{V: v, Target: tgt, Interval: 100 * time.Millisecond, Backoff: true, Mode: "posthandshake-busy"})
@@ -953,6 +1045,8 @@ func TestVF_C17(t *testing.T) {
 			synctest.Test(t, func(t *testing.T) {
 				if c.Mode == "posthandshake-busy" {
 					vfC17PostHandshakeBusy(res, c)
+				} else if c.Mode == "persistent-loss" {
+					vfC17PersistentLoss(res, c)
 				} else if c.Mode == "hostile" {
 					vfC17Hostile(res, c)
 				} else {
@@ -971,6 +1065,8 @@ func TestVF_C17(t *testing.T) {
 		switch cases[i].Mode {
 		case "posthandshake-busy":
 			vfC17PostHandshakeBusy(res, cases[i])
+		case "persistent-loss":
+			vfC17PersistentLoss(res, cases[i])
 		case "hostile":
 			vfC17Hostile(res, cases[i])
 		default:
